@@ -89,6 +89,7 @@ theorem c01Step_of_reported [DecidableEq α] {S : SimIface σ α ω ι} {k : MKi
     (hargs : if shuffled then permOf args acts = true else args = acts)
     (hR : Reported S s1 reps o s')
     (hreps : ∀ a ∈ reps, a ∉ m.doneSet)
+    (hlt : ∀ a ∈ reps, a < S.n)
     (had : o.allDone = (S.allDone s1 ||
       (participating k S.n S.learning).all (fun a => decide (a ∈ g.R ++ newlyDone o.dones)))) :
     c01Step k S.n S.learning shuffled g acts
@@ -101,11 +102,14 @@ theorem c01Step_of_reported [DecidableEq α] {S : SimIface σ α ω ι} {k : MKi
     have := hacc p hp
     simp only [decide_eq_true_eq] at this ⊢
     exact fun h => this ((hI.ds p.1).mpr (Or.inl h))
-  refine ⟨⟨⟨⟨⟨⟨⟨⟨hblock, ?_⟩, ?_⟩, ?_⟩, ?_⟩, ?_⟩, ?_⟩, ?_⟩, ?_⟩
+  refine ⟨⟨⟨⟨⟨⟨⟨⟨⟨hblock, ?_⟩, ?_⟩, ?_⟩, ?_⟩, ?_⟩, ?_⟩, ?_⟩, ?_⟩, ?_⟩
   · rw [hR.rewards, hR.obs, keys_map_pair]; simp
   · rw [hR.dones, hR.obs, keys_map_pair]; simp
   · rw [hR.infos, hR.obs]; simp
   · rw [hR.obs]; simpa using hR.nodup
+  · rw [hR.obs, List.all_eq_true]
+    intro a ha
+    simpa using hlt a ha
   · rw [hR.obs, List.all_eq_true]
     intro a ha
     simp only [decide_eq_true_eq]
@@ -269,7 +273,8 @@ theorem allStep_step_sound [DecidableEq α] {S : SimIface σ α ω ι} (hW : WF 
   unfold OpSound
   rw [hE]
   refine ⟨?_, ?_, rfl, ?_⟩
-  · exact c01Step_of_reported hI m.shuffle acts sh.1 s1 s3 live out hacc hargs hR hreps had
+  · have hlt : ∀ a ∈ live, a < S.n := fun a ha => (mem_agents S a).mp (List.mem_filter.mp ha).1
+    exact c01Step_of_reported hI m.shuffle acts sh.1 s1 s3 live out hacc hargs hR hreps hlt had
   · -- C07: every learning agent not yet reported done is reported; somebody can act
     simp only [c07Entry, Bool.or_eq_true, Bool.and_eq_true]
     by_cases hAD : out.allDone = true
@@ -381,9 +386,10 @@ theorem flush_sound [DecidableEq α] {S : SimIface σ α ω ι} (hS : Lawful S) 
   unfold OpSound
   rw [hE]
   refine ⟨?_, by simp [c07Entry, mkOut], rfl, ?_⟩
-  · refine c01Step_of_reported hI m.shuffle acts acts _ _ _ _ hacc ?_ hR ?_ ?_
+  · refine c01Step_of_reported hI m.shuffle acts acts _ _ _ _ hacc ?_ hR ?_ ?_ ?_
     · cases m.shuffle <;> simp [permOf_refl]
     · intro a ha; simpa using (List.mem_filter.mp ha).2
+    · intro a ha; exact (mem_agents S a).mp (List.mem_filter.mp ha).1
     · simp [mkOut, hfin]
   · intro _ hov
     simp [gNext, mkOut] at hov
@@ -490,13 +496,15 @@ theorem turn_step_sound [DecidableEq α] {S : SimIface σ α ω ι} (hW : WF S .
       · exact Or.inl h
       · exact Or.inr ⟨(List.mem_filter.mp h1).1, h2⟩
   have hnewly : newlyDone out.dones = reps.filter (fun a => S.done s1 a) := newlyDone_reported hR
+  have hrepslt : ∀ a ∈ reps, a < S.n := fun a ha =>
+    ((mem_learners S a).mp (hpre_learn a (List.mem_filter.mp ha).1)).1
   unfold OpSound
   rw [hE]
   cases hAD : res.allDone with
   | true =>
     obtain ⟨_, hallin⟩ := hT hAD
     refine ⟨?_, by simp [c07Entry, out, mkOut, hAD], rfl, ?_⟩
-    · refine c01Step_of_reported hI m.shuffle acts acts s1 res.sim reps out hacc ?_ hR hreps ?_
+    · refine c01Step_of_reported hI m.shuffle acts acts s1 res.sim reps out hacc ?_ hR hreps hrepslt ?_
       · cases m.shuffle <;> simp [permOf_refl]
       · show res.allDone = _
         rw [hAD, hfin']
@@ -534,7 +542,7 @@ theorem turn_step_sound [DecidableEq α] {S : SimIface σ α ω ι} (hW : WF S .
       · exact absurd h1 (by simpa using hb'.2)
       · rw [h1]
     refine ⟨?_, ?_, rfl, ?_⟩
-    · refine c01Step_of_reported hI m.shuffle acts acts s1 res.sim reps out hacc ?_ hR hreps ?_
+    · refine c01Step_of_reported hI m.shuffle acts acts s1 res.sim reps out hacc ?_ hR hreps hrepslt ?_
       · cases m.shuffle <;> simp [permOf_refl]
       · show res.allDone = _
         rw [hAD, hfin']
@@ -683,7 +691,11 @@ theorem dyn_step_sound [DecidableEq α] {S : SimIface σ α ω ι} (hW : WF S .d
   unfold OpSound
   rw [hE]
   refine ⟨?_, ?_, rfl, ?_⟩
-  · refine c01Step_of_reported hI m.shuffle acts acts s1 res.sim reps out hacc ?_ hR hreps had
+  · have hrepslt : ∀ a ∈ reps, a < S.n := by
+      intro a ha
+      have : a ∈ S.next s1 := by rw [hnom]; exact List.mem_append_left _ (List.mem_filter.mp ha).1
+      exact (hnext s1).2 a this
+    refine c01Step_of_reported hI m.shuffle acts acts s1 res.sim reps out hacc ?_ hR hreps hrepslt had
     cases m.shuffle <;> simp [permOf_refl]
   · simp only [c07Entry, Bool.or_eq_true, Bool.and_eq_true]
     cases hAD : res.allDone with
@@ -752,7 +764,8 @@ theorem reset_sound [DecidableEq α] {S : SimIface σ α ω ι} {k : MKind} (hW 
     rw [hE]
     rw [filter_notin_nonLearners] at h1 ⊢
     refine ⟨?_, ?_, rfl, ?_⟩
-    · simp only [c01Entry, h1, decide_eq_true_eq]; exact nodup_learners S
+    · simp only [c01Entry, h1, Bool.and_eq_true, decide_eq_true_eq, List.all_eq_true]
+      exact ⟨nodup_learners S, fun a ha => ((mem_learners S a).mp ha).1⟩
     · simp only [c07Entry, h1, Bool.and_eq_true, Bool.or_eq_true]
       refine ⟨sameSet_refl _, ?_⟩
       cases hl : S.learners with
@@ -777,7 +790,7 @@ theorem reset_sound [DecidableEq α] {S : SimIface σ α ω ι} {k : MKind} (hW 
     unfold OpSound
     rw [hE]
     have haL : a ∈ S.learners := by rw [hL]; simp
-    refine ⟨by simp [c01Entry, keys], ?_, rfl, ?_⟩
+    refine ⟨by simpa [c01Entry, keys] using ((mem_learners S a).mp haL).1, ?_, rfl, ?_⟩
     · have : (List.range S.n).filter S.learning = a :: rest := hL
       simp [c07Entry, keys, this]
     · intro _ _
@@ -804,7 +817,8 @@ theorem reset_sound [DecidableEq α] {S : SimIface σ α ω ι} {k : MKind} (hW 
     have hnomG : (ghostOf S (readObs S (S.reset m.sim) (S.next (S.reset m.sim))).2).nominated
         = S.next (S.reset m.sim) := by simp only [ghostOf]; exact h2.2.2
     refine ⟨?_, ?_, rfl, ?_⟩
-    · simp only [c01Entry, h1, decide_eq_true_eq]; exact (hnext _).1
+    · simp only [c01Entry, h1, Bool.and_eq_true, decide_eq_true_eq, List.all_eq_true]
+      exact ⟨(hnext _).1, (hnext _).2⟩
     · simp only [c07Entry, h1, hnomG, Bool.and_eq_true, Bool.or_eq_true]
       refine ⟨sameSet_refl _, ?_⟩
       cases hl : S.next (S.reset m.sim) with
@@ -859,4 +873,124 @@ theorem runOps_sound [DecidableEq α] {S : SimIface σ α ω ι} {k : MKind} (hW
         simp only [hprot]
         exact ⟨by rw [h1, i1]; rfl, by rw [h7, i7]; rfl⟩
 
+end Abmarl
+
+namespace Abmarl
+variable {σ α ω ι : Type}
+
+/-- every manager call made under the caller protocol is sound -/
+theorem op_sound [DecidableEq α] {S : SimIface σ α ω ι} {k : MKind} (hW : WF S k)
+    (m : MState σ) (g : GSt) (op : Op α)
+    (hI : g.started = true → g.over = false → Inv S k m g)
+    (hop : ∀ acts, op = .step acts → g.started = true ∧ g.over = false) :
+    OpSound S k m g op := by
+  cases op with
+  | reset => exact reset_sound hW m g
+  | step acts =>
+    obtain ⟨hst, hov⟩ := hop acts rfl
+    have hInv := hI hst hov
+    cases k with
+    | allStep => exact allStep_step_sound hW hInv hst acts
+    | turnBased => exact turn_step_sound hW hInv hst acts
+    | dynamic => exact dyn_step_sound hW hInv hst acts
+
+end Abmarl
+
+namespace Abmarl
+variable {σ α ω ι : Type}
+
+theorem runOp_op (S : SimIface σ α ω ι) (k : MKind) (m : MState σ) (op : Op α) :
+    (runOp S k m op).1.op = op := by
+  cases op with
+  | reset => simp only [runOp]; split <;> rfl
+  | step acts => simp only [runOp]; split <;> rfl
+
+/-- what `turnExpect` pins down -/
+theorem turnExpect_shape {learners : List Aid} {g : GSt} {simDone : List Bool} {d : List (Aid × Bool)}
+    (h : turnExpect learners g simDone = some d) :
+    ∃ pre live post, rotAfter learners g.holder = pre ++ live :: post ∧
+      (∀ b ∈ pre, b ∈ g.R ∨ simDone.getD b false = true) ∧
+      live ∉ g.R ∧ simDone.getD live false = false ∧
+      d = ((pre.filter (fun a => decide (a ∉ g.R))).map fun a => (a, true)) ++ [(live, false)] := by
+  unfold turnExpect at h
+  simp only [] at h
+  split at h
+  · cases h
+  · rename_i live post hdw
+    simp only [Option.some.injEq] at h
+    refine ⟨(rotAfter learners g.holder).takeWhile (fun a => decide (a ∈ g.R) || simDone.getD a false),
+      live, post, ?_, ?_, ?_, ?_, h.symm⟩
+    · rw [← hdw, List.takeWhile_append_dropWhile]
+    · intro b hb
+      have hall := List.all_takeWhile (l := rotAfter learners g.holder)
+        (p := fun a => decide (a ∈ g.R) || simDone.getD a false)
+      have := List.all_eq_true.mp hall b hb
+      simpa using this
+    · have := List.head_dropWhile_not (fun a => decide (a ∈ g.R) || simDone.getD a false)
+        (l := rotAfter learners g.holder) (by rw [hdw]; simp)
+      simp only [hdw, List.head_cons, Bool.or_eq_false_iff, decide_eq_false_iff_not] at this
+      exact this.1
+    · have := List.head_dropWhile_not (fun a => decide (a ∈ g.R) || simDone.getD a false)
+        (l := rotAfter learners g.holder) (by rw [hdw]; simp)
+      simp only [hdw, List.head_cons, Bool.or_eq_false_iff, decide_eq_false_iff_not] at this
+      exact this.2
+
+
+theorem lookup_of_mem_nodup {β : Type} (l : List (Aid × β)) (hnd : (keys l).Nodup) (a : Aid) (v : β)
+    (h : (a, v) ∈ l) : l.lookup a = some v := by
+  induction l with
+  | nil => cases h
+  | cons p ps ih =>
+    have hnd0 : (p.1 :: keys ps).Nodup := hnd
+    have hnd' := List.nodup_cons.mp hnd0
+    rcases List.mem_cons.mp h with h | h
+    · subst h; simp [List.lookup]
+    · have hne : a ≠ p.1 := by
+        intro e; apply hnd'.1; rw [← e]
+        exact List.mem_map.mpr ⟨(a, v), h, rfl⟩
+      have : (a == p.1) = false := by simpa using hne
+      simp only [List.lookup, this]
+      exact ih hnd'.2 h
+
+end Abmarl
+
+namespace Abmarl
+section unpack
+variable {α ω ι : Type} [DecidableEq α] {k : MKind} {n : Nat} {learning : Aid → Bool} {sh : Bool} {g : GSt}
+  {acts : List (Aid × α)} {e : Entry α ω ι} {o : Out ω ι}
+
+/-- everything `c01Step` says about an accepted step, as named Prop fields -/
+structure C01StepOK (k : MKind) (n : Nat) (learning : Aid → Bool) (sh : Bool) (g : GSt)
+    (acts : List (Aid × α)) (e : Entry α ω ι) (o : Out ω ι) : Prop where
+  notBlocked : (acts.any fun p => decide (p.1 ∈ g.R)) = false
+  keysR : keys o.rewards = keys o.obs
+  keysD : keys o.dones = keys o.obs
+  keysI : keys o.infos = keys o.obs
+  nodup : (keys o.obs).Nodup
+  lt : ∀ a ∈ keys o.obs, a < n
+  notR : ∀ a ∈ keys o.obs, a ∉ g.R
+  args : (match e.simArgs with
+          | none => false
+          | some args => if sh then permOf args acts else decide (args = acts)) = true
+  allDone : o.allDone = (e.ghost.simAllDone ||
+      (participating k n learning).all (fun a => decide (a ∈ g.R ++ newlyDone o.dones)))
+  ledger : ledgerOk n o.rewards e.accrued e.ghost.pending = true
+
+theorem c01Step_unpack (h : c01Step k n learning sh g acts e = true) (ho : e.res = .stepOk o) :
+    C01StepOK k n learning sh g acts e o := by
+  simp only [c01Step, ho, Bool.and_eq_true, beq_iff_eq, decide_eq_true_eq, List.all_eq_true,
+    Bool.not_eq_true'] at h
+  obtain ⟨⟨⟨⟨⟨⟨⟨⟨⟨h1, h2⟩, h3⟩, h4⟩, h5⟩, h6⟩, h7⟩, h8⟩, h9⟩, h10⟩ := h
+  exact ⟨h1, h2, h3, h4, h5, h6, h7, h8, h9, h10⟩
+
+
+/-- an error outcome of a step is only possible for a blocked action -/
+theorem c01Step_err_blocked {er : Err} (h : c01Step k n learning sh g acts e = true)
+    (hr : e.res = .err er) : ∃ p ∈ acts, p.1 ∈ g.R ∨ (k ≠ .dynamic ∧ learning p.1 = false) := by
+  simp only [c01Step, hr, Bool.and_eq_true, decide_eq_true_eq, Option.isNone_iff_eq_none, beq_iff_eq,
+    List.any_eq_true, Bool.or_eq_true, bne_iff_ne, ne_eq, Bool.not_eq_true'] at h
+  obtain ⟨⟨⟨⟨_, p, hp, hpp⟩, _⟩, _⟩, _⟩ := h
+  exact ⟨p, hp, hpp⟩
+
+end unpack
 end Abmarl
